@@ -298,7 +298,7 @@ def loss_job(job_id, case, B=3, S=2, source_filter=None):
 
 
 # =============================================================================================== C20
-def stats_job(job_id, case, m=2, n0=None, source_filter=None):
+def stats_job(job_id, case, m=2, n0=None, cols=1, source_filter=None):
     """case: 'welford' (inductive step from arbitrary sufficient statistics), 'welford_first' (from the initial
     state), 'scale_norm' / 'scale_scale' / 'scale_int' / 'scale_none' (output transformation), 'ema', 'warmup'"""
     E = explore.EXP
@@ -316,13 +316,13 @@ def stats_job(job_id, case, m=2, n0=None, source_filter=None):
         if E_.check(neg, *realisable) == z3.sat or E_.check(neg) == z3.sat:
             mm = E_.model()
             return [{"kind": "script", "path": core.ROOT + "/vf/torch_side", "module": "training_side", "func": "run_stats", "model_kind": "plain", "mode": "C20",
-                     "params": {"case": case, "m": m, "n0": n0, "values": {str(d): str(mm[d]) for d in mm.decls() if d.arity() == 0 and str(d) != "eps!"}}}]
+                     "params": {"case": case, "m": m, "cols": cols, "n0": n0, "values": {str(d): str(mm[d]) for d in mm.decls() if d.arity() == 0 and str(d) != "eps!"}}}]
         return []
 
     def harness():
-        name = f"[{case} m={m}]"
-        xs = [z3.Real(f"x{i}") for i in range(m)]
-        X = T.Tensor(np.array(list(xs), dtype=object), T.float32)
+        name = f"[{case} m={m}x{cols}]"
+        xs = [z3.Real(f"x{i}") for i in range(m * cols)]
+        X = T.Tensor(np.array(list(xs), dtype=object).reshape((m, cols) if cols > 1 else (m,)), T.float32)  # cols > 1: [batch, n_start] advantages
         if case.startswith("welford") or case.startswith("scale"):
             kind = {"scale_norm": "norm", "scale_scale": "scale", "scale_int": 4, "scale_none": None}.get(case, "norm")
             sc = utils.RewardScaler(kind)
@@ -345,7 +345,7 @@ def stats_job(job_id, case, m=2, n0=None, source_filter=None):
             if case in ("scale_int", "scale_none"):
                 out = sc(X.clone())
                 ref = [x / 4 for x in xs] if case == "scale_int" else xs
-                ctx.prove(E, f"{name} output is the stated transformation of the input", z3.And(*[T._real(a) == T._real(b) for a, b in zip(out.a, ref)]), cexb)
+                ctx.prove(E, f"{name} output is the stated transformation of the input", z3.And(*[T._real(a) == T._real(b) for a, b in zip(out.a.reshape(-1), ref)]), cexb)
                 ctx.states += 1
                 ctx.transitions += 1
                 return
@@ -354,16 +354,16 @@ def stats_job(job_id, case, m=2, n0=None, source_filter=None):
                 sc.update(X)
                 E.obligations = []
             else:
-                if not is_sym(n) and n + m < 2:
+                if not is_sym(n) and n + len(xs) < 2:
                     raise explore.PathAbort()
                 out = sc(X.clone())
                 if E.obligations:
                     obs, E.obligations = E.obligations, []
                     ctx.prove(E, f"{name} no division by zero / sqrt of a negative number ({obs[0][0]}, ...)", z3.And(*[T._bool(c) for _, c in obs]), cexb)
-            N = nr + m
+            N = nr + len(xs)
             T1 = S1 + sum(xs)
             T2 = S2 + sum(x * x for x in xs)
-            ctx.prove(E, f"{name} count equals the number of values observed", (sc.count == n + m) if is_sym(sc.count) or is_sym(n) else sc.count == n + m, cexb)
+            ctx.prove(E, f"{name} count equals the number of values observed", (sc.count == n + len(xs)) if is_sym(sc.count) or is_sym(n) else sc.count == n + len(xs), cexb)
             same(ctx, E, f"{name} running mean equals the mean of all values observed so far", sc.mean, T1 / N, cexb)
             same(ctx, E, f"{name} running M2 equals the sum of squared deviations of all values observed so far", sc.M2, T2 - T1 * T1 / N, cexb)
             if case.startswith("scale_"):
@@ -374,7 +374,7 @@ def stats_job(job_id, case, m=2, n0=None, source_filter=None):
                     ref = [(x - T1 / N) / (std + eps32) for x in xs]
                 else:
                     ref = [x / (std + eps32) for x in xs]
-                ctx.prove(E, f"{name} output = stated transformation with the sample standard deviation sqrt(M2/(n-1))", z3.And(*[T._real(a) == b for a, b in zip(out.a, ref)]), cexb)
+                ctx.prove(E, f"{name} output = stated transformation with the sample standard deviation sqrt(M2/(n-1))", z3.And(*[T._real(a) == b for a, b in zip(out.a.reshape(-1), ref)]), cexb)
             ctx.states += 1
             ctx.transitions += 1
         elif case == "ema":
